@@ -1,33 +1,55 @@
 #!/bin/bash
 # Entry point for every MANIFEST command. Rebuilds the harness against /repo's current working tree.
+# Every invocation builds into a directory of its own (bin/run-<pid>, removed at the end), so that several
+# checks, also against different trees (VERIF_REPO), can run at the same time from one /verif.
 set -u
 cd "$(dirname "$0")"
 export GOFLAGS=-mod=mod GOPROXY=off GOSUMDB=off GOTOOLCHAIN=local
 export VERIF_ROOT="$(pwd)"
 export VERIF_REPO="${VERIF_REPO:-/repo}"
 mkdir -p bin evidence out
+BIN="$VERIF_ROOT/bin/run-$$"
+# (what a killed run left behind goes, unless that run is still alive)
+for d in bin/run-*; do p="${d##*-}"; [ -d "$d" ] && ! kill -0 "$p" 2>/dev/null && rm -rf "$d" "h/alt-$p.mod" "h/alt-$p.sum"; done
+mkdir -p "$BIN"
+export VERIF_BIN="$BIN"
+ERR="out/build-$$"
+cleanup() { rm -rf "$BIN" "h/alt-$$.mod" "h/alt-$$.sum" "$ERR".*; }
+trap cleanup EXIT
 build() {
   # go.sum must match the repo's (offline module resolution)
-  cp "$VERIF_REPO/go.sum" h/go.sum 2>/dev/null
+  cmp -s "$VERIF_REPO/go.sum" h/go.sum || cp "$VERIF_REPO/go.sum" h/go.sum 2>/dev/null
   local modfile=()
   if [ "$VERIF_REPO" != "/repo" ]; then
-    sed "s#=> /repo#=> $VERIF_REPO#" h/go.mod > h/alt.mod; cp h/go.sum h/alt.sum
-    modfile=(-modfile=alt.mod)
+    sed "s#=> /repo#=> $VERIF_REPO#" h/go.mod > "h/alt-$$.mod"; cp h/go.sum "h/alt-$$.sum"
+    modfile=(-modfile="alt-$$.mod")
   fi
   HOOKS=1
-  if ! (cd h && go build "${modfile[@]}" -tags verif -o ../bin/verif ./cmd/verif) 2> out/build.err; then
+  if ! (cd h && go build "${modfile[@]}" -tags verif -o "$BIN/verif" ./cmd/verif) 2> "$ERR.1"; then
     # hooks may not compile against an edited tree: fall back to the boundary-only harness
     HOOKS=0
-    if ! (cd h && go build "${modfile[@]}" -o ../bin/verif ./cmd/verif) 2> out/build2.err; then
-      cat out/build.err out/build2.err >&2
+    if ! (cd h && go build "${modfile[@]}" -o "$BIN/verif" ./cmd/verif) 2> "$ERR.2"; then
+      cat "$ERR.1" "$ERR.2" >&2
       echo "BROKEN: harness does not build against $VERIF_REPO" >&2
       exit 2
     fi
   fi
   export VERIF_HOOKS=$HOOKS
   # the CLI under test (C20), rebuilt from the tree under test
-  (cd "$VERIF_REPO" && go build -o "$VERIF_ROOT/bin/ion-go-cli" ./cmd/ion-go) 2> out/build-cli.err || { echo "BROKEN: cmd/ion-go does not build" >&2; cat out/build-cli.err >&2; rm -f bin/ion-go-cli; }
+  (cd "$VERIF_REPO" && go build -o "$BIN/ion-go-cli" ./cmd/ion-go) 2> "$ERR.3" || { echo "BROKEN: cmd/ion-go does not build" >&2; cat "$ERR.3" >&2; rm -f "$BIN/ion-go-cli"; }
   export VERIF_MODFILE="${modfile[*]:-}"
+}
+# run the checking binary as a child (not exec: the private build directory is removed afterwards) and
+# hand on the signals a caller may send (timeout -s QUIT asks for the goroutine dump)
+run() {
+  "$@" &
+  child=$!
+  trap 'kill -TERM $child 2>/dev/null' TERM
+  trap 'kill -INT $child 2>/dev/null' INT
+  trap 'kill -QUIT $child 2>/dev/null' QUIT
+  wait $child; rc=$?
+  while kill -0 $child 2>/dev/null; do wait $child; rc=$?; done
+  exit $rc
 }
 case "${1:-}" in
   setup) build; echo "setup ok (hooks=$VERIF_HOOKS)";;
@@ -35,15 +57,19 @@ case "${1:-}" in
     if [ "${1:-}" = "C18" ]; then
       # C18 is decided by the Go race detector: a second binary built with -race
       TAGS=(-tags verif); [ "$VERIF_HOOKS" = 1 ] || TAGS=()
-      if (cd h && go build $VERIF_MODFILE -race "${TAGS[@]}" -o ../bin/verif-race ./cmd/verif) 2> out/build-race.err; then
-        rm -rf out/race; mkdir -p out/race
-        export VERIF_RACE_LOG="$VERIF_ROOT/out/race/c18"
+      if (cd h && go build $VERIF_MODFILE -race "${TAGS[@]}" -o "$BIN/verif-race" ./cmd/verif) 2> "$ERR.4"; then
+        RACEDIR="out/race-$$"
+        # (race logs of earlier runs go, unless that run is still alive)
+        for d in out/race-*; do p="${d##*-}"; [ -d "$d" ] && ! kill -0 "$p" 2>/dev/null && rm -rf "$d"; done
+        rm -rf "$RACEDIR" out/race; mkdir -p "$RACEDIR"
+        ln -sfn "race-$$" out/race
+        export VERIF_RACE_LOG="$VERIF_ROOT/$RACEDIR/c18"
         export GORACE="halt_on_error=0 log_path=$VERIF_RACE_LOG history_size=3"
-        exec ./bin/verif-race check "$@"
+        run "$BIN/verif-race" check "$@"
       fi
-      cat out/build-race.err >&2; echo "NOTE: race build failed; running without the race detector" >&2
+      cat "$ERR.4" >&2; echo "NOTE: race build failed; running without the race detector" >&2
     fi
-    exec ./bin/verif check "$@";;
-  replay) build; shift; exec ./bin/verif replay "$@";;
+    run "$BIN/verif" check "$@";;
+  replay) build; shift; run "$BIN/verif" replay "$@";;
   *) echo "usage: run.sh setup | check <ID> quick|thorough | replay <path>"; exit 2;;
 esac
